@@ -13,6 +13,7 @@ from ..pool import Death, Timeout
 
 PID = "C15"
 FL = "asan"
+FL0 = FL
 CD = rt.CD_SIZE
 
 
@@ -134,6 +135,7 @@ class FreshWorker:
 def do_case(item):
     name, setup0, call = item[:3]
     fresh = len(item) > 3 and item[3]
+    FL = item[4] if len(item) > 4 else FL0
     acc = common.Acc()
     w = FreshWorker(rt.PATHS["vw-" + FL]) if fresh else rt.vw(FL)
     is_gs = call.startswith("gensalt")
@@ -166,21 +168,26 @@ def do_case(item):
         tr = random.Random("%s/%s" % (name, n))
         allt = [(a, b, c) for a in range(1, n + 2) for b in range(a + 1, n + 3) for c in range(b + 1, n + 4)]
         scen += tr.sample(allt, min(len(allt), 60))
-    for faults in scen:
+    # munmap(2) can also fail with ENOMEM (unmapping would split a mapping past the limit): every position that was
+    # an munmap in the un-faulted trace once more with that error
+    scen = [(f, rt.EINVAL) for f in scen] + [((i + 1,), rt.ENOMEM) for i, q in enumerate(reqs) if q[0] == "U"]
+    for faults, mu_errno in scen:
         fl = "fault " + ",".join(str(x) for x in faults)
-        lines = base_setup + setup0 + [fl, call, call] + tail
+        lines = base_setup + setup0 + ["munmaperrno %d" % mu_errno, fl, call, call] + tail
         res, end = w.run(lines, 300)
         acc.count("evaluations")
         acc.count("single_faults" if len(faults) == 1 else ("double_faults" if len(faults) == 2 else "triple_faults"))
-        where = "%s faults=%s" % (name, faults)
+        where = "%s faults=%s%s" % (name, faults, " (munmap fails with ENOMEM)" if mu_errno != rt.EINVAL else "")
         if isinstance(end, Death):
             rt.death_violation(acc, PID, end, FL, lines[end.line], "faulted/" + name.split("/")[0], lines[:end.line])
             continue
         if end is not None:
             acc.inconc("timeout " + where)
             continue
-        off = len(base_setup) + len(setup0) + 1
+        off = len(base_setup) + len(setup0) + 2
         r1, r2 = res[off], res[off + 1]
+        if mu_errno != rt.EINVAL:
+            acc.count("munmap_enomem_faults")
         ev = parse_ev(r1.get("ev", "."))
         failed = [(k, sz, h) for (k, sz, h, f, bad) in ev if bad]
         acc.cls((name.split("/")[0], len(faults), tuple(k for k, _, _ in failed)))
@@ -272,9 +279,15 @@ def is_gs_os(call):
 
 def run(tier):
     run_ = common.Run(PID, tier, "fault_enumeration")
-    rt.prepare([FL])
+    rt.prepare([FL, "ndebug"])
     TIER[0] = tier
     items = corpus(tier)
+    # a distribution building with -DNDEBUG: what an assert() wrapped is gone there.  The calls that request
+    # memory (mappings, crypt_ra blocks, gensalt_ra strings) once more on that build
+    items += [(it[0] + "@ndebug", it[1], it[2], len(it) > 3 and it[3], "ndebug") for it in items
+              if it[0].split("/")[0] in ("rn", "ra", "ra-null", "ra-small", "gensalt_ra") and
+              (tier == "thorough" or it[0].split("/")[1] in ("y-small", "y-32M", "gy-small", "7-small", "7-p2", "y-rom",
+                                                              "yescrypt", "scrypt", "sha512crypt", "y-32M-hugepages"))]
     for acc in pool.pmap(do_case, items):
         run_.merge(acc)
     a = run_.acc
@@ -290,8 +303,9 @@ def run(tier):
         "double_fault_runs": int(a.n.get("double_faults", 0)),
         "triple_fault_runs_sampled": int(a.n.get("triple_faults", 0)),
         "faults_actually_injected": int(a.n.get("faults_injected", 0)),
+        "munmap_failing_with_ENOMEM_runs": int(a.n.get("munmap_enomem_faults", 0)),
         "distinct_request_traces": sorted("%s:%s" % t for t in a.sets.get("traces", ())),
-        "flavour": FL + " + ledger",
+        "flavour": FL + " and -O2 -DNDEBUG, each with the request ledger",
     }
     return run_.finish(cov, assumptions=[
         "faults inside libc (snprintf...) and kernel OOM kills are out of scope",
